@@ -230,6 +230,10 @@ type Lexer struct {
 	pos  int // index of the next token to deliver
 	cur  int // index of the last delivered token (len(toks) = EOI)
 	Delivered int
+	// Concretize: deliver each token as a concrete value (the symbolic executor forks over the feasible
+	// values at this point; natively a no-op). Used for table encodings whose lookups are data-dependent
+	// array accesses rather than comparisons.
+	Concretize bool
 }
 
 func (l *Lexer) InitTokens(toks []int32) {
@@ -247,6 +251,10 @@ func (l *Lexer) Next() token.Type {
 	}
 	l.cur = l.pos
 	t := l.toks[l.pos]
+	if l.Concretize {
+		t = int32(verifConcretize(int(t)))
+		l.toks[l.pos] = t
+	}
 	l.pos++
 	return token.Type(t)
 }
